@@ -359,7 +359,7 @@ def run_harness(exe, scenarios):
                 break
             rec, st = g
             if st is None:
-                res[i] = (rec, "crash rc=%s" % rc, err[-1500:])
+                res[i] = (rec, "crash rc=%s" % rc, err[:6000])
             else:
                 res[i] = (rec, st, "")
             i += 1
@@ -367,7 +367,7 @@ def run_harness(exe, scenarios):
             break
         if rc != 0 and groups and groups[-1][1] is not None and i < len(scenarios):
             # died between scenarios / before printing anything of the next one
-            res[i] = ([], "crash rc=%s" % rc, err[-1500:])
+            res[i] = ([], "crash rc=%s" % rc, err[:6000])
             i += 1
     for k in range(len(scenarios)):
         if res[k] is None:
@@ -443,8 +443,16 @@ def analyse(sc, rec, status, errtail, drv, stats, V, widen=False):
                 if allc:
                     stats["polar_lateral"] += fb[1]
     if status.startswith("crash") or status == "not-run":
-        nfail += 1
-        V.fail_input("the run of the real solver ended abnormally (sanitizer report / crash)", {"line": line, "status": status, "detail": " ".join(errtail.split())[:700]}, key=None)
+        # a sanitizer report is charged to this property when it comes from one of the places that dereference a stored
+        # reference (or when the states observed before it already violate the property); a crash elsewhere (mesh
+        # refinement, triangulation ...) belongs to another property and is only counted
+        top = crash_top(errtail)
+        if nfail or any(m in top for m in DEREF_SITES):
+            nfail += 1
+            V.fail_input("the run of the real solver ended abnormally (sanitizer report / crash) where a stored reference is dereferenced",
+                         {"line": line, "status": status, "detail": " ".join(top.split())[:700]}, key=None)
+        else:
+            stats["foreign_crashes"].append({"line": line, "where": " ".join(top.split())[:300]})
     # events actually exercised
     for it, at in evs.items():
         stats["div_attempts"] += len(at)
@@ -492,10 +500,29 @@ def analyse(sc, rec, status, errtail, drv, stats, V, widen=False):
     return nfail
 
 
+DEREF_SITES = ("special_polarization_update", "update_nodes_positions", "resolve_contact", "resolve_all_contacts",
+               "contact_node_node_via_coupling::run", "apply_surface_tension_and_membrane_elasticity", "apply_bending_forces",
+               "get_face_type", "cell_divider::run", "epithelial_cell.hpp", "time_integration.cpp")
+
+
+def crash_top(err):
+    """the location line and the three innermost frames of the first sanitizer report"""
+    keep = []
+    for ln in err.splitlines():
+        t = ln.strip()
+        if "runtime error" in t or t.startswith("SUMMARY") or t.startswith("==") and "ERROR" in t:
+            keep.append(t)
+        elif t.startswith(("#0 ", "#1 ", "#2 ")) and sum(1 for k in keep if k.startswith("#")) < 3:
+            keep.append(t)
+        if len(keep) >= 6:
+            break
+    return "\n".join(keep) if keep else err[:400]
+
+
 def new_stats():
     return {"scenarios": 0, "states": 0, "use_states": 0, "couplings": 0, "derefs": 0, "divisions": 0, "removals": 0,
             "div_attempts": 0, "replayed_states": 0, "checked_states": 0, "disagreements": 0, "cells_max": 0,
-            "status": {}, "rm_pos": {"first": 0, "other": 0}, "polar_faces": 0, "polar_lateral": 0}
+            "status": {}, "rm_pos": {"first": 0, "other": 0}, "polar_faces": 0, "polar_lateral": 0, "foreign_crashes": []}
 
 
 def run(ctx):
@@ -556,6 +583,7 @@ def run(ctx):
         "polarisation_faces_checked": stats["polar_faces"], "faces_marked_lateral": stats["polar_lateral"],
         "replayed_states": stats["replayed_states"], "checker_states": stats["checked_states"],
         "model_vs_impl_disagreements": stats["disagreements"], "oracle_failures": oracle_fail,
+        "crashes_outside_the_dereference_sites": stats["foreign_crashes"][:5], "n_crashes_outside": len(stats["foreign_crashes"]),
         "repo_objects_rebuilt": rebuilt, "samples": samples,
     }
     vlib.write_evidence(PID, tier, "proof", cov, [
